@@ -293,3 +293,47 @@ def step_nop(op, nop):
 @spec
 def step_cs(op, vf, cs, pos):
     return ite(op == 0xab and executing(vf), pos, cs)
+
+
+# ---- CHECKMULTISIG: signature/key matching and signature removal (consensus algorithm) ---------------------------
+@spec(recursive=True, sig=[TupleOf(Bytes), Int, Int, Int, Int, Bytes, Int], ret=Bool)
+def msig(st, isig, ns, ikey, nk, script, idx):
+    """matching of ns signatures st[-isig], st[-isig-1], ... against nk keys st[-ikey], st[-ikey-1], ...: every step
+    consumes a key, and a signature only when it verifies against that key; the match fails as soon as more
+    signatures than keys remain (EvalScript, OP_CHECKMULTISIG loop)"""
+    if ns <= 0:
+        return True
+    if checksig_ok(st[-isig], st[-ikey], script, idx):
+        if ns - 1 > nk - 1:
+            return False
+        return msig(st, isig + 1, ns - 1, ikey + 1, nk - 1, script, idx)
+    if ns > nk - 1:
+        return False
+    return msig(st, isig, ns, ikey + 1, nk - 1, script, idx)
+
+
+@spec(recursive=True, sig=[Bytes, TupleOf(Bytes), Int, Int], ret=Bytes)
+def fad_sigs(script, st, isig, k):
+    """the subscript with the first k signatures st[-isig], st[-isig-1], ... removed (as pushes), one after the other"""
+    if k <= 0:
+        return script
+    return fad(fad_sigs(script, st, isig, k - 1), push_enc(st[-isig - (k - 1)]))
+
+
+@spec
+def msig_n(st):
+    """number of keys announced on top of the stack"""
+    return num4(st[-1])
+
+
+@spec
+def msig_m(st):
+    """number of signatures announced below the keys"""
+    return num4(st[-(msig_n(st) + 2)])
+
+
+@spec
+def msig_result(st, script, idx):
+    """outcome of the m-of-n check on stack st: all signatures are first removed from the subscript"""
+    return msig(st, msig_n(st) + 3, msig_m(st), 2, msig_n(st),
+                fad_sigs(script, st, msig_n(st) + 3, msig_m(st)), idx)
